@@ -60,6 +60,15 @@ pub fn search(_seed: u64, _budget: u64) -> i32 {
             }
         }
     }
+    // `?` is one CHARACTER: names and patterns with 2-, 3- and 4-byte characters
+    let ualpha = ['a', '?', '*', '\u{e9}', '\u{6587}', '\u{1F600}'];
+    let (upats, utexts) = (strings(&ualpha, 3), strings(&['a', '\u{e9}', '\u{6587}', '\u{1F600}', '?'], 3));
+    for p in &upats { for t in &utexts {
+        if let Some(what) = check(p, t) {
+            println!("WITNESS {{\"kind\":\"glob\",\"pat\":\"{}\",\"text\":\"{}\",\"what\":\"{}\"}}", p, t, what.replace('"', "'"));
+            return 1;
+        }
+    } }
     0
 }
 
